@@ -23,6 +23,8 @@ func schedScenarios(prop, tier string) []*Scenario {
 		return c06Scenarios(tier)
 	case "C11":
 		return c11Scenarios(tier)
+	case "C20":
+		return c20Scenarios(tier)
 	}
 	return nil
 }
@@ -56,6 +58,10 @@ func listItems(prop, tier string) []Item {
 
 func seqJobList(prop, tier string) []*SeqJob {
 	switch prop {
+	case "C01":
+		return c01SeqJobs(tier)
+	case "C02":
+		return c02SeqJobs(tier)
 	case "C03":
 		return c03Jobs(tier)
 	case "C06":
@@ -68,6 +74,8 @@ func seqJobList(prop, tier string) []*SeqJob {
 		return c10Jobs(tier)
 	case "C11":
 		return c11Jobs(tier)
+	case "C20":
+		return c20Jobs(tier)
 	}
 	return nil
 }
